@@ -15,6 +15,7 @@ REAL = "real code from the /repo working tree"
 PROPERTIES = {}
 NOT_APPLICABLE = {}
 ENGINE_KINDS = {
+    "pipeline": "System + Manager + ExchangeMap + GroFile writer on generated multi-species worlds (real files, file seam on): life-cycle histories of add_end_molecule / calculate_exchange_maps / align_molecules / extrapolate_system incl. premature extrapolations; output taken from the file seam",
     "routing": "Alignment.align_molecules with the optimiser entry point replaced by a recording stub; Manager.align_molecules with Alignment.align_molecules replaced by a recording stub (real files); restraint guessers by enumeration",
     "system": "System recognition on generated files: scheduler-chosen topology load order with observers between loads and injected failing loads; instance list derived from the file as oracle",
     "alias": "operation histories over an object graph (molecules, copies, deep copies, residues, atoms, live views, System hand-outs through real files, Alignment-stored molecules) checked after every operation against an aliasing model",
@@ -373,3 +374,26 @@ _reg("C10", engine="routing", level="exploration",
      schedule_dimension="none (configuration space: roles, filters, option dictionaries, injected malformed options)",
      probes=["role_swap_with_restraints", "restraint_dropped_with_hydrogen", "reindexing_with_restraints", "all_1600_length_pairs",
              "several_species_routed", "pre_parsed_restrictions"])
+
+
+_reg("C05", engine="pipeline", level="exploration",
+     runs={"quick": 3200, "thorough": 160000}, block=10,
+     technique="seeded Manager life-cycle histories on a simulated disk: the file seam's operation log answers 'was the output opened for writing' and supplies the written image; output re-parsed independently and compared molecule by molecule with the species' map applied to the input molecule",
+     level_text=("Sampled worlds (2..5 species with 1-, 2- and >=3-atom references, single- and two-residue species, an unloaded "
+                 "solvent, 2..60 interleaved molecules, rectangular / triclinic box, assorted titles) and sampled histories: end "
+                 "molecules attached for any subset in any order (from files or as objects), maps calculated with any scale, "
+                 "optional short alignment, extrapolation requested any number of times incl. too early (nothing attached; an end "
+                 "molecule attached after the last map calculation) and onto existing outputs.  Checked: refusal leaves no "
+                 "open-for-write event and an unchanged disk; success gives count = sum of target sizes, input order, atom numbers "
+                 "1.., title, box (5e-6), input residue numbers, coordinates = species' map(input molecule) to the format precision "
+                 "(C02's invariants for 1-/2-atom references), byte-identical repetition."),
+     level_note=("Trusted: the 15-line output parser; the expected coordinates come from calling the species' own exchange map "
+                 "(C04 decides that this call is history-independent).  End molecules carry no velocities.  Systems stay below "
+                 "99 999 atoms."),
+     rule="one run = one world + one life-cycle history; non-trivial = the history ran to the end; distinct = distinct (operation, outcome) sequences",
+     components={"Manager / Alignment / ExchangeMap": REAL, "System / SystemGro / Molecule": REAL, "GroFile writer + parsers": REAL,
+                 "MC alignment": REAL + " (only in histories that contain an align step; STEPS_FACTOR 1..3)",
+                 "disk": "tmpfs directory behind the file seam"},
+     schedule_dimension="order of life-cycle calls; position of premature extrapolations",
+     probes=["successful_extrapolation", "small_reference_species", "unmapped_species_skipped", "repeated_extrapolation",
+             "overwrote_existing_output"])
